@@ -165,3 +165,28 @@ function_body_roundtrip = Contract(
 function_body_roundtrip.opaque = {"to_docstring": {"ret": "str"}, "ast_parse_fix": {"ret": ("obj", "ast.expr")}, "get_docstring": {"ret": "none"},
                                   "to_code": {"ret": "str"}, "_to_code": {"ret": "str"}, "ast.parse": {"ret": ("obj", "ast.Module")}}
 CONTRACTS.append(function_body_roundtrip)
+
+# ------------------------------------------------------------------------------------------- law: a body re-homed into __call__ (C16-L, second half)
+_S_USE = ("node", "ast.Expr", {"value": ("node", "ast.Name", {"id": ("lit", "a"), "ctx": ("node", "ast.Load", {})})})
+_S_OTHER = ("node", "ast.Expr", {"value": ("node", "ast.Name", {"id": ("lit", "other"), "ctx": ("node", "ast.Load", {})})})
+
+call_body_roundtrip = Contract(
+    "vf.contracts.laws:call_body_roundtrip",
+    properties=["C16"],
+    note="C16, deductively: parse.function followed by emit.class_(emit_call=True) on an undocumented def f(a) whose body reads the parameter `a` and another name; "
+         "to_docstring (and what is done to its text) is opaque",
+    cases=[Case("reads-param-and-other", {"function_def": _fdef([_arg("a")], [], body=[_S_USE, _S_OTHER])}, assume=["function_def.name != ''"])],
+    use_contract_for=["doctrans.defaults_utils:needs_quoting"],
+    ensures=[
+        Clause("CB-call", "typeis(result, 'ClassDef') and result.name == 'C' and typeis(result.body[-1], 'FunctionDef') and result.body[-1].name == '__call__' "
+                          "and [x.arg for x in result.body[-1].args.args] == ['self']", note="the class ends with __call__(self)"),
+        Clause("CB-param-rewritten", "typeis(result.body[-1].body[0].value, 'Attribute') and result.body[-1].body[0].value.attr == 'a' and result.body[-1].body[0].value.value.id == 'self'",
+               note="C16: a reference to the parameter becomes self.a"),
+        Clause("CB-other-kept", "typeis(result.body[-1].body[1].value, 'Name') and result.body[-1].body[1].value.id == 'other' and len(result.body[-1].body) == 2",
+               note="C16: no other name is touched; no statement is added or dropped"),
+        Clause("CB-frame", "unchanged(function_def, old_function_def)", note="C13: the parsed tree is not modified"),
+    ],
+    canaries=["len(result.body) == 1"],
+)
+call_body_roundtrip.opaque = {"to_docstring": {"ret": "str"}, "get_docstring": {"ret": "none"}, "to_code": {"ret": "str"}, "_to_code": {"ret": "str"}}
+CONTRACTS.append(call_body_roundtrip)
